@@ -211,7 +211,11 @@ def run_case(ctx, rng, index, casedir):
                     line_at = bi.line_at
                 else:
                     data = open(gaf, "rb").read()
-                    line_at = lambda off, data=data: data[off:data.find(b"\n", off)].decode() if 0 <= off < len(data) else None  # noqa: E731
+                    def line_at(off, data=data):
+                        if not 0 <= off < len(data):
+                            return None
+                        e = data.find(b"\n", off)
+                        return data[off:e if e != -1 else len(data)].decode()
                 from gaftools.gaf import GAF
                 real = GAF(gaf)
                 a = {}
